@@ -43,6 +43,7 @@ package state
 //@ property C37 C15
 //@ smt all (declare-fun acct_of (Iface BSeq) Iface)
 //@ smt all (declare-ghost bal (Array Iface Int))
+//@ smt all (declare-ghost bal_stale Bool)
 //@ smt int (declare-fun wc_price (Iface) Int)
 //@ func (c WorldContext) GetAccountState(id) (as)
 //@   iface
@@ -67,6 +68,7 @@ package state
 //@   trusted
 //@   pure
 //@   ensures b != nil && fresh(b) && big(b) == ghost(bal)[a]
+//@   opt ghost:bal_stale false
 //@ func (a AccountState) SetBalance(v)
 //@   iface
 //@   trusted
